@@ -93,6 +93,10 @@ func RunDoc(d *pagedoc.Doc, stream string) vlib.Case {
 		return c
 	}
 	desc["pages"] = pagedoc.Summary(obs)
+	if d.PageTopPaddingOverflow(obs) {
+		// structural trigger of the known deviation of code 13 (see pagedoc.PageTopPaddingOverflow)
+		c.Tags = append(c.Tags, "pb-closes-page-top-block")
+	}
 	c.Nontrivial = len(obs) > 1
 	c.Coq = fmt.Sprintf("CDoc %s %s", d.Coq(), pagedoc.CoqPages(obs))
 	c.Desc = desc
